@@ -466,8 +466,8 @@ int vnadata_resize(vnadata_t *vdp, vnadata_parameter_type_t type,
 		}
 	    }
 	}
-	for (int findex = vdp->vd_frequencies - 1; findex >= frequencies;
-		--findex) {
+	for (int findex = vdp->vd_frequencies - 1;
+		old_cells > 0 && findex >= frequencies; --findex) {
 	    (void)memset((void *)vdp->vd_data[findex], 0,
 		    old_cells * sizeof(double complex));
 	}
